@@ -101,11 +101,17 @@ pub struct Cfg {
     /// drive the cache through the AsyncCache handle (every operation awaited by `block_on`)
     #[serde(default)]
     pub async_handle: bool,
+    /// warm start: these steps are executed (with all oracles on) before the exploration begins and do not count
+    /// towards the depth — "start from non-initial states"
+    #[serde(default)]
+    pub prefix: Vec<Act>,
+    #[serde(default)]
+    pub prefix_name: String,
 }
 impl Cfg {
     fn name(&self) -> String {
         format!(
-            "cache/{}/{}/cap{}/sh{}/ttl{}/tti{}{}{}/d{}",
+            "cache/{}/{}/cap{}/sh{}/ttl{}/tti{}{}{}/d{}{}",
             self.family,
             self.policy,
             self.capacity.map(|c| c.to_string()).unwrap_or("inf".into()),
@@ -114,7 +120,8 @@ impl Cfg {
             self.tti_s.map(|c| c.to_string()).unwrap_or("-".into()),
             if self.introspection_maintenance { "/im" } else { "" },
             self.grace_s.map(|g| format!("/grace{}", g)).unwrap_or_default() + if self.async_handle { "/async" } else { "" },
-            self.depth
+            self.depth,
+            if self.prefix.is_empty() { String::new() } else { format!("/from-{}", self.prefix_name) }
         )
     }
 }
@@ -1159,12 +1166,12 @@ impl<'a> Explorer<'a> {
         let had_loss = !w.dead.is_empty();
         if had_hit && had_loss {
             self.stats.nontrivial += 1;
-            if self.stats.samples.len() < 2 && n == self.cfg.depth {
+            if self.stats.samples.len() < 2 && n == self.cfg.depth + self.cfg.prefix.len() {
                 self.stats.samples.push(serde_json::json!({"history": format!("{:?}", w.log)}));
             }
         }
         drop(w);
-        if n < self.cfg.depth {
+        if n < self.cfg.depth + self.cfg.prefix.len() {
             for a in self.alpha.clone() {
                 // pointless repetitions
                 if matches!(a, Act::Coin(_)) && hist.iter().any(|h| matches!(h, Act::Coin(_))) {
@@ -1181,7 +1188,7 @@ impl<'a> Explorer<'a> {
 fn run_cfg(cfg: &Cfg) -> (Scenario, Vec<Violation>) {
     let t0 = Instant::now();
     let mut ex = Explorer { cfg, alpha: alphabet(cfg), stats: Stats::default(), fails: vec![] };
-    let mut hist = vec![];
+    let mut hist = cfg.prefix.clone();
     ex.node(&mut hist);
     let mut viol = vec![];
     for (f, hist) in &ex.fails {
@@ -1221,7 +1228,7 @@ fn configs(tier: &str) -> Vec<Cfg> {
     let quick = tier == "quick";
     let policies_all = ["default", "lru", "fifo", "sieve", "clock", "slru", "arc", "random"];
     let d = |q: usize, t: usize| if quick { q } else { t };
-    let base = Cfg { family: String::new(), policy: "lru".into(), capacity: Some(2), shards: 1, ttl_s: None, tti_s: None, introspection_maintenance: false, depth: 4, grace_s: None, loader: false, async_handle: false };
+    let base = Cfg { family: String::new(), policy: "lru".into(), capacity: Some(2), shards: 1, ttl_s: None, tti_s: None, introspection_maintenance: false, depth: 4, grace_s: None, loader: false, async_handle: false, prefix: vec![], prefix_name: String::new() };
     // cost accounting / capacity / listener, every policy
     for p in policies_all {
         for (cap, shards) in [(2u64, 1usize), (3, 2)] {
@@ -1233,6 +1240,15 @@ fn configs(tier: &str) -> Vec<Cfg> {
         if !quick || matches!(p, "default" | "lru" | "arc") {
             v.push(Cfg { family: "cost2".into(), policy: p.into(), capacity: Some(2), shards: 1, depth: d(5, 6), ..base.clone() });
         }
+    }
+    // warm start: key 0 admitted, read (promoted inside segmented policies) and overwritten with another cost, then the
+    // cost alphabet from there — the states in which a policy's recorded cost can differ from the entry's
+    for p in ["default", "slru", "lru", "arc"] {
+        if quick && !matches!(p, "default" | "slru") {
+            continue;
+        }
+        let pre = vec![Act::Insert(0, 1), Act::Maint, Act::Fetch(0), Act::Maint, Act::Insert(0, 2), Act::Maint];
+        v.push(Cfg { family: "cost".into(), policy: p.into(), capacity: Some(3), shards: 1, depth: d(4, 5), prefix: pre, prefix_name: "promoted-overwritten".into(), ..base.clone() });
     }
     // expiry
     for (cap, pol) in [(None, "default"), (Some(2), "lru")] {
